@@ -88,6 +88,8 @@ def run(ctx):
     ctx.do(rule_sets_and_numbers)
     ctx.do(rule_copy_complete)
     ctx.do(rule_changed_flag)
+    ctx.do(rule_flag_returned)
+    ctx.do(rule_lexicographic_chains)
     ctx.do(rule_distinct_bindings)
     from .pitfalls import rule_groupby_sorted, rule_single_use_iterators
     ctx.do(rule_groupby_sorted, "C09.iterator-pitfalls", ("stix2.equivalence.pattern",))
@@ -106,6 +108,8 @@ def run(ctx):
     ctx.do(rule_loop_flags_monotone, "C09.changed-accumulates", ("stix2.equivalence",))
     from .hidden_state import rule_no_hidden_state
     ctx.do(rule_no_hidden_state, "C09.history-independence")
+    from .pitfalls import rule_loops_not_cut_short
+    ctx.do(rule_loops_not_cut_short, "C09.loops-complete")
 
 
 def producers(prog):
@@ -580,6 +584,88 @@ def rule_same_decider(ctx):
     run.check(ok, R, key(ff.module.relpath, ff.qualname, "yields-exactly-equivalents"), "the search does not yield exactly the members "
               "that compare equal", file=ff.module.relpath, line=ff.node.lineno, function=ff.qualname,
               expected="for p in patterns: if cmp(...) == 0: yield p", found=short(ff.node, 200))
+
+
+def rule_lexicographic_chains(ctx):
+    """The comparators of the equivalence test order expressions lexicographically by components: the next component is
+    consulted exactly when all earlier ones compared EQUAL (`if result == 0: result = <next comparison>`).  A tie-break taken
+    under another condition (negated, `!= 0`, unconditional) lets a later component override an earlier difference -- or never
+    look at it -- and two different expressions compare equal: the equivalence test reports them equivalent (unsound)."""
+    run = ctx.run
+    prog = ctx.prog
+    R = "C09.comparator-mirror"
+    n = 0
+    for fi in sorted(prog.functions.values(), key=lambda f: f.id):
+        if not fi.module.name.startswith("stix2.equivalence.pattern.compare") or not fi.name.endswith("_cmp"):
+            continue
+        asg = [a_ for a_ in body_walk(fi.node) if isinstance(a_, ast.Assign) and len(a_.targets) == 1 and isinstance(a_.targets[0], ast.Name)
+               and ((isinstance(a_.value, ast.Call) and call_simple_name(a_.value) and (
+                   call_simple_name(a_.value).endswith("_cmp") or call_simple_name(a_.value) == "iter_lex_cmp"))
+                   or norm(a_.value) in ("-1", "1"))]
+        cmp_vars = {a_.targets[0].id for a_ in asg if isinstance(a_.value, ast.Call)}
+        asg = [a_ for a_ in asg if a_.targets[0].id in cmp_vars]
+        by_var = {}
+        for a_ in asg:
+            by_var.setdefault(a_.targets[0].id, []).append(a_)
+        for v, lst in sorted(by_var.items()):
+            lst.sort(key=lambda x: x.lineno)
+            from ..cfg import cfg_of
+            g_ = cfg_of(fi)
+            for a_ in lst[1:]:
+                # a tie-break STEP: some earlier comparison result can flow into it (alternatives in exclusive branches are not)
+                n2 = g_.node_of(a_)
+                if not any(n2 in g_.reachable_from(g_.node_of(e_)) for e_ in lst if e_.lineno < a_.lineno and g_.node_of(e_) is not None):
+                    continue
+                n += 1
+                gc = [(norm(t), pol) for t, pol, _ in guard_chain(a_)]
+                tie = [(t, pol) for t, pol in gc if v in t]
+                ok = bool(tie) and all((t == "%s == 0" % v and pol) or (t == "%s != 0" % v and not pol) for t, pol in tie)
+                run.check(ok, R, key(fi.module.relpath, fi.qualname, "next-component-only-on-a-tie:%d" % lst.index(a_)),
+                          "a later component of the lexicographic comparison is consulted under %s instead of 'all earlier components "
+                          "compared equal': an earlier difference is overridden or a later one never seen, so different expressions "
+                          "can compare equal" % (tie or "no condition"), file=fi.module.relpath, line=a_.lineno, function=fi.qualname,
+                          expected="if %s == 0: %s = <next comparison>" % (v, v), found=gc)
+    if n < 4:
+        raise AnalysisError("fewer than 4 tie-break steps found in the comparators (%d)" % n)
+
+
+def rule_flag_returned(ctx):
+    """... and what was accumulated is what is RETURNED: a transformer that computes a `changed` flag (it assigns True to it
+    somewhere) returns that variable; `return ast, False` tells SettleTransformer / ChainTransformer that nothing happened, the
+    fixed-point iteration stops early and the documented rewrites are applied only partly.  (Transformers that never change
+    anything -- transform_default, in-place canonicalisation -- legitimately return the constant.)"""
+    run = ctx.run
+    prog = ctx.prog
+    R = "C09.changed-accumulates"
+    n = 0
+    for fi in sorted(prog.functions.values(), key=lambda f: f.id):
+        if not fi.module.name.startswith("stix2.equivalence.pattern.transform"):
+            continue
+        flags = {norm(a_.targets[0]) for a_ in body_walk(fi.node) if isinstance(a_, ast.Assign) and len(a_.targets) == 1
+                 and isinstance(a_.targets[0], ast.Name) and isinstance(a_.value, ast.Constant) and a_.value.value is True}
+        # a flag unpacked from a sub-transformer's answer counts as computed as well
+        for a_ in body_walk(fi.node):
+            if isinstance(a_, ast.Assign) and isinstance(a_.targets[0], ast.Tuple) and len(a_.targets[0].elts) == 2 \
+                    and isinstance(a_.targets[0].elts[1], ast.Name) and isinstance(a_.value, ast.Call):
+                flags.add(a_.targets[0].elts[1].id)
+        if not flags:
+            continue
+        rets = [r for r in body_walk(fi.node) if isinstance(r, ast.Return) and isinstance(r.value, ast.Tuple) and len(r.value.elts) == 2]
+        for r in rets:
+            n += 1
+            fl_ = r.value.elts[1]
+            ok = isinstance(fl_, ast.Name) and fl_.id in flags or (isinstance(fl_, ast.BoolOp) and any(
+                isinstance(v_, ast.Name) and v_.id in flags for v_ in fl_.values))
+            # an early `return <node>, False` before anything was computed is fine: no flag assignment precedes it
+            if not ok and isinstance(fl_, ast.Constant) and not any(getattr(a_, "lineno", 10 ** 9) < r.lineno for a_ in body_walk(fi.node) if (
+                    isinstance(a_, ast.Assign) and norm(a_.targets[0]) in flags)):
+                ok = True
+            run.check(ok, R, key(fi.module.relpath, fi.qualname, "returns-the-accumulated-flag:%d" % (rets.index(r) + 1)),
+                      "the transformer computes a changed-flag (%s) but returns %s: the settling loop is told nothing happened and "
+                      "stops before the normal form is reached" % (", ".join(sorted(flags)), norm(fl_)), file=fi.module.relpath,
+                      line=r.lineno, function=fi.qualname, expected="return <node>, %s" % sorted(flags)[0], found=short(r, 60))
+    if n < 10:
+        raise AnalysisError("fewer than 10 flag-returning transformer methods found (%d)" % n)
 
 
 def rule_changed_flag(ctx):
